@@ -45,6 +45,11 @@ Proof.
   intro X. apply H1. apply in_or_app. auto.
 Qed.
 
+Lemma filter_none_eff : forall {A} (f : A -> bool) l, (forall x, In x l -> f x = false) -> filter f l = [].
+Proof.
+  induction l; simpl; intros; auto. rewrite (H a) by auto. apply IHl. intros. apply H. auto.
+Qed.
+
 Lemma run_app : forall ls1 ls2 s, run (ls1 ++ ls2) s = run ls2 (run ls1 s).
 Proof. intros. unfold run. apply fold_left_app. Qed.
 
@@ -1557,4 +1562,41 @@ Proof.
   apply andb_true_intro. split; auto.
   rewrite forallb_forall in *. intros e IN. specialize (H e IN).
   unfold check_entry in H. apply andb_prop in H. tauto.
+Qed.
+
+(* an abort that reaches a timer task before its first poll (the sleep / interval does not even
+   exist yet) prevents everything, whatever the period -- zero included: the task ends as
+   cancelled and no message, send failure, stop or kill of that timer ever exists *)
+Theorem abort_before_first_poll : forall pk ls1 ls2 t0 i tm,
+  let s1 := run ls1 (init t0 pk) in
+  nth_error (timers s1) i = Some tm -> k_pc tm = PInit ->
+  let s3 := run ls2 (step s1 (Abort i)) in
+  effs_of i (effs s3) = []
+  /\ (forall k t, ~ In (i, k, t) (g_log (tgt s3)))
+  /\ exists tm', nth_error (timers s3) i = Some tm' /\ k_pc tm' = PAborted /\ k_sent tm' = 0.
+Proof.
+  intros pk ls1 ls2 t0 i tm s1 N P s3. subst s3.
+  destruct (abort_prevents pk ls1 ls2 t0 i (nth_some_lt _ _ _ N)) as (NT & EF & AB). fold s1 in NT, EF, AB.
+  destruct (Inv1_run ls1 t0 pk) as (_ & EO & _). fold s1 in EO.
+  assert (E0 : effs_of i (effs s1) = []).
+  { unfold effs_of. apply filter_none_eff. intros e IN.
+    destruct (EO _ IN) as (_ & tm' & N' & NI & _).
+    destruct (Nat.eqb_spec (e_tid e) i) as [E|]; auto. subst i. rewrite N in N'. inversion N'; subst. congruence. }
+  destruct (AB tm N) as (tm' & N3 & P3); [rewrite P; reflexivity|].
+  split; [congruence|].
+  set (s3 := run ls2 (step s1 (Abort i))) in *.
+  assert (R3 : s3 = run (ls1 ++ Abort i :: ls2) (init t0 pk)).
+  { unfold s3, s1. rewrite run_app. reflexivity. }
+  destruct (Inv2_run (ls1 ++ Abort i :: ls2) t0 pk) as ((TO3 & EO3 & _ & SC3) & OK3). rewrite <- R3 in *.
+  assert (S0 : k_sent tm' = 0).
+  { destruct (N.eq_dec (k_sent tm') 0) as [|NZ]; auto. exfalso.
+    assert (IN : In (i, 1) (pairs (effs s3))) by (eapply SC3; eauto; lia).
+    apply in_pairs in IN. destruct IN as (t & IN).
+    assert (X : In (mkEff i (ESent 1) t) (effs_of i (effs s3))).
+    { unfold effs_of. apply filter_In. split; auto. simpl. apply Nat.eqb_refl. }
+    rewrite EF, E0 in X. contradiction. }
+  split.
+  - intros k t IN. destruct (ok_log _ OK3 _ _ _ IN) as (_ & tm2 & N2 & _ & _ & K1 & K2 & _).
+    rewrite N3 in N2. inversion N2; subst. lia.
+  - eauto.
 Qed.
